@@ -4,6 +4,7 @@ import (
 	"encoding/json"
 	"fmt"
 	"math/big"
+	"strings"
 	"time"
 
 	"verif/harness/ev"
@@ -151,8 +152,120 @@ func c08Eval(cs *c08Case) (key, msg string, err error) {
 			return "", "proved", nil
 		}
 		return "", "", nil
+	case "circ-ins", "circ-del":
+		// the helper's hash must be the one the circuit accepts: valid batch on a sparse tree at the given
+		// dimensions and position(s), input hash from the library helper, full Define in the engine
+		d, b := cs.Depth, cs.Batch
+		cur := ref.NewSparse(ref.BN, d)
+		size := ref.Pow2(d)
+		if cs.Kind == "circ-ins" {
+			bb := insBatch{Depth: d, Start: fmt.Sprint(cs.Start), Pre: cur.Root().String()}
+			p := prover.InsertionParameters{StartIndex: cs.Start, PreRoot: *cur.Root()}
+			for i := 0; i < b; i++ {
+				ix := uint64(cs.Start) + uint64(i)
+				cm := big.NewInt(int64(900 + i))
+				path := cur.Proof(ix)
+				bb.Comms = append(bb.Comms, cm.String())
+				bb.Proofs = append(bb.Proofs, strs(path))
+				p.IdComms = append(p.IdComms, *cm)
+				cur.Set(ix, cm)
+			}
+			bb.Post = cur.Root().String()
+			p.PostRoot = *cur.Root()
+			if e := p.ComputeInputHashInsertion(); e != nil {
+				return "circ-ins|error", "ComputeInputHashInsertion returned " + e.Error(), nil
+			}
+			bb.Hash = p.InputHash.String()
+			shape, asg := bb.reduced(ref.BN).circuits()
+			if e := gad.Solved(shape, asg, ref.R); e != nil {
+				return fmt.Sprintf("circuit-rejects-helper-hash|insertion d=%d", d), fmt.Sprintf("insertion (depth %d, batch %d, start index %d): the circuit does not accept the valid batch with the input hash computed by ComputeInputHashInsertion", d, b, cs.Start), nil
+			}
+			return "", "proved", nil
+		}
+		bb := delBatch{Depth: d}
+		p := prover.DeletionParameters{}
+		for _, ix := range cs.Idx {
+			if new(big.Int).SetUint64(uint64(ix)).Cmp(size) < 0 {
+				cur.Set(uint64(ix), big.NewInt(int64(700+ix%97)))
+			}
+		}
+		bb.Pre = cur.Root().String()
+		p.PreRoot = *cur.Root()
+		for _, ix := range cs.Idx {
+			bb.Idx = append(bb.Idx, fmt.Sprint(ix))
+			p.DeletionIndices = append(p.DeletionIndices, ix)
+			if new(big.Int).SetUint64(uint64(ix)).Cmp(size) < 0 {
+				it := new(big.Int)
+				if v, ok := cur.Leaves[uint64(ix)]; ok {
+					it = v
+				}
+				bb.Items = append(bb.Items, it.String())
+				bb.Proofs = append(bb.Proofs, strs(cur.Proof(uint64(ix))))
+				cur.Set(uint64(ix), new(big.Int))
+			} else {
+				bb.Items = append(bb.Items, "0")
+				g := make([]string, d)
+				for j := range g {
+					g[j] = "0"
+				}
+				bb.Proofs = append(bb.Proofs, g)
+			}
+		}
+		bb.Post = cur.Root().String()
+		p.PostRoot = *cur.Root()
+		if e := p.ComputeInputHashDeletion(); e != nil {
+			return "circ-del|error", "ComputeInputHashDeletion returned " + e.Error(), nil
+		}
+		bb.Hash = p.InputHash.String()
+		shape, asg := bb.reduced(ref.BN).circuits()
+		if e := gad.Solved(shape, asg, ref.R); e != nil {
+			return fmt.Sprintf("circuit-rejects-helper-hash|deletion d=%d", d), fmt.Sprintf("deletion (depth %d, indices %v): the circuit does not accept the valid batch with the input hash computed by ComputeInputHashDeletion", d, cs.Idx), nil
+		}
+		return "", "proved", nil
 	}
 	return "", "", fmt.Errorf("unknown kind")
+}
+
+// c08CircuitCases: dimensions x positions for the helper-vs-circuit agreement (positions whose 32-bit
+// encodings have one, two, three and four significant bytes, byte-palindromic and not).
+func c08CircuitCases(quick bool) []c08Case {
+	var out []c08Case
+	depths := []int{1, 2, 3, 8, 9, 10, 16, 17, 24, 25, 31, 32}
+	if quick {
+		depths = []int{2, 8, 9, 17, 25, 32}
+	}
+	pos := []uint64{0, 1, 2, 254, 255, 256, 300, 513, 65535, 65536, 70000, 1 << 24, 1<<24 + 258, 1<<31 - 2, 1 << 31, 1<<32 - 3}
+	for _, d := range depths {
+		size := uint64(1) << uint(d)
+		for _, b := range []int{1, 2} {
+			if quick && b == 1 {
+				continue
+			}
+			for _, st := range pos {
+				if st+uint64(b) > size {
+					continue
+				}
+				out = append(out, c08Case{Kind: "circ-ins", Depth: d, Batch: b, Start: uint32(st)})
+			}
+			if d <= 31 {
+				// deletion: pairs of positions (and one padding index) so that the packed indices differ
+				var live []uint32
+				for _, st := range pos {
+					if st < size {
+						live = append(live, uint32(st))
+					}
+				}
+				for i := 0; i+1 < len(live); i += 2 {
+					idx := []uint32{live[i+1], live[i]}
+					if b == 2 {
+						idx = append(idx, uint32(size+uint64(live[i])%size))
+					}
+					out = append(out, c08Case{Kind: "circ-del", Depth: d, Batch: len(idx), Idx: idx})
+				}
+			}
+		}
+	}
+	return out
 }
 
 func tailStr(b []byte) string {
@@ -226,9 +339,12 @@ func c08Body(c *ev.Ctx) {
 			}
 		}
 	}
+	cc := c08CircuitCases(quick)
+	cases = append(cases, cc...)
+	c.Set("helper_vs_circuit_cases", int64(len(cc)))
 	var evals, proved, shortSeen int64
 	distinct := map[string]bool{}
-	c.Logf("%d helper cases, %d generator runs", nHelper, len(cases)-nHelper)
+	c.Logf("%d helper cases, %d generator runs, %d helper-vs-circuit cases", nHelper, len(cases)-nHelper-len(cc), len(cc))
 	done := par.For(len(cases), func(i int) {
 		key, msg, err := c08Eval(&cases[i])
 		if err != nil {
@@ -247,6 +363,8 @@ func c08Body(c *ev.Ctx) {
 	for _, cs := range cases {
 		if cs.Kind == "gen" {
 			distinct[fmt.Sprintf("gen-%s-%d-%d", cs.Mode, cs.Depth, cs.Batch)] = true
+		} else if strings.HasPrefix(cs.Kind, "circ-") {
+			distinct[fmt.Sprintf("%s-%d-%d-%d-%v", cs.Kind, cs.Depth, cs.Batch, cs.Start, cs.Idx)] = true
 		} else {
 			distinct[fmt.Sprintf("%s-%d-%d-%d", cs.Kind, byteLen(bigs(cs.Pre)), byteLen(bigs(cs.Post)), len(cs.Comms)+len(cs.Idx))] = true
 		}
@@ -259,9 +377,9 @@ func c08Body(c *ev.Ctx) {
 	c.Set("evaluations", evals)
 	c.Set("distinct_nontrivial", int64(len(distinct)))
 	c.Set("helper_cases", int64(nHelper))
-	c.Set("generator_runs", int64(len(cases)-nHelper))
+	c.Set("generator_runs", int64(len(cases)-nHelper-len(cc)))
 	c.Sample(cases[7])
 	c.Sample(cases[len(cases)-1])
-	c.Set("rule", "helper cases: every pair of big-endian byte lengths 0..32 for (preRoot, postRoot) (smallest/largest value of each length), batch sizes {0,1,2,3,19}, index extremes; generator cases: gen-test-params of the built binary for every (mode, depth 1..32, batch 1..4/8) whose tree can hold the batch; oracle: Keccak of the fixed-width packing written from the statement; distinct = (helper, preLen, postLen, batch) classes and (mode, depth, batch) triples")
+	c.Set("rule", "helper cases: every pair of big-endian byte lengths 0..32 for (preRoot, postRoot) (smallest/largest value of each length), batch sizes {0,1,2,3,19}, index extremes; generator cases: gen-test-params of the built binary for every (mode, depth 1..32, batch 1..4/8) whose tree can hold the batch; helper-vs-circuit cases: valid batches at depths {1..3,8,9,10,16,17,24,25,31,32} x positions with 1..4 significant index bytes, input hash from the helper, full Define in the engine must accept; oracle: Keccak of the fixed-width packing written from the statement; distinct = (helper, preLen, postLen, batch) classes and (mode, depth, batch) triples")
 	c.Assume("x/crypto legacy Keccak-256 as the on-chain hash; that the circuit enforces exactly this packing is C03's subject")
 }
